@@ -204,9 +204,10 @@ def evaluate(ctx, items, wd):
                     if py is not None and py != rep["spec"]:
                         ctx.inconsistent(sc, "lean-spec=" + rep["spec"], "python-oracle=" + py)
                     if (oc == "0") != (rep["spec"] == "0"):
-                        ctx.violation(sc, r["out"], rep["spec"], cls=None, what=WHAT)
+                        if _reproducible(ctx, sc, wd, oc):
+                            ctx.violation(sc, r["out"], rep["spec"], cls=None, what=WHAT)
                         continue
-        if py is not None and (oc == "0") != (py == "0"):
+        if py is not None and (oc == "0") != (py == "0") and _reproducible(ctx, sc, wd, oc):
             ctx.violation(sc, r["out"], py, cls=None, what=WHAT + " (python oracle)")
 
 
